@@ -67,25 +67,34 @@ impl Dec {
     }
 }
 
-/// Reference decoder: ':' + hex pairs (either case) + optional single CRLF; length test, then checksum test.
-pub fn dec(bytes: &[u8]) -> Dec {
+/// The decoded hex pairs of a string of the documented shape (':' + >= 5 hex pairs in either case + optional
+/// single CRLF, nothing before or after), or `None` if the text is malformed.
+pub fn fields(bytes: &[u8]) -> Option<Vec<u8>> {
     if bytes.first() != Some(&b':') {
-        return Dec::Malformed;
+        return None;
     }
     let mut body = &bytes[1..];
     if body.len() >= 2 && body[body.len() - 2] == b'\r' && body[body.len() - 1] == b'\n' {
         body = &body[..body.len() - 2];
     }
     if body.len() % 2 != 0 || body.len() < 10 {
-        return Dec::Malformed;
+        return None;
     }
     let mut fields = Vec::with_capacity(body.len() / 2);
     for pair in body.chunks(2) {
         match (unnib(pair[0]), unnib(pair[1])) {
             (Some(h), Some(l)) => fields.push(h * 16 + l),
-            _ => return Dec::Malformed,
+            _ => return None,
         }
     }
+    Some(fields)
+}
+
+/// Reference decoder: malformed text, then length test, then checksum test.
+pub fn dec(bytes: &[u8]) -> Dec {
+    let Some(fields) = fields(bytes) else {
+        return Dec::Malformed;
+    };
     let n = fields.len();
     let declared = fields[0] as usize;
     let actual = n - 5;
